@@ -1328,6 +1328,29 @@ func verifEnum(alpha string, maxLen int) []string {
 
 func TestVerifReplay(t *testing.T) {
 	strs := %s
+	// numbers that do not fit a machine integer: every digit run of the package's own literals replaced, one at a time,
+	// by a run of 25 nines (an overflow must end in an error, not in a value together with an error)
+	{
+		var big []string
+		for _, s := range strs {
+			if len(big) > 600 {
+				break
+			}
+			for i := 0; i < len(s); {
+				if s[i] < '0' || s[i] > '9' {
+					i++
+					continue
+				}
+				j := i
+				for j < len(s) && s[j] >= '0' && s[j] <= '9' {
+					j++
+				}
+				big = append(big, s[:i]+"9999999999999999999999999"+s[j:])
+				i = j
+			}
+		}
+		strs = append(strs, big...)
+	}
 	strs = append(strs, verifEnum("1.0a-~^*[(,) <>=|!v+_:x", 3)...)
 	// multi-byte runes, invalid UTF-8 and NUL between and after ordinary version characters
 	{
